@@ -9,13 +9,20 @@ logging.disable(logging.CRITICAL)
 T0 = datetime(2000, 1, 1)
 
 
+TICK = [timedelta(minutes=1)]  # the time lattice unit (H-SCHED runs may use other ticks, e.g. 1/3 s or 1 day)
+
+
+def tick():
+    return TICK[0]
+
+
 def tm(minutes):
-    """time on the integer minute lattice"""
-    return T0 + timedelta(minutes=int(minutes))
+    """time on the integer lattice (default tick: one minute)"""
+    return T0 + int(minutes) * TICK[0]
 
 
 def mins(t):
-    return None if t is None else int(round((t - T0).total_seconds() / 60.0))
+    return None if t is None else int(round((t - T0) / TICK[0]))
 
 
 def make_adapter(spec):
@@ -43,9 +50,9 @@ def make_adapter(spec):
     if k == "stack":
         return A.StackTime()
     if k == "dfix":
-        return A.DelayFixed(timedelta(minutes=spec[1]))
+        return A.DelayFixed(spec[1] * TICK[0])
     if k == "dpull":
-        return A.DelayToPull(steps=spec[1], additional_delay=timedelta(minutes=spec[2]))
+        return A.DelayToPull(steps=spec[1], additional_delay=spec[2] * TICK[0])
     if k == "dpush":
         return A.DelayToPush()
     raise ValueError(k)
